@@ -6,7 +6,8 @@
 //
 // ops (stdin):
 //   load <path.gkf>            parse, set_algorithm, remove_inconsistency, Acord2 (orientations)
-//   pass                       project_equations(); dump (lines "P …" = inputs, "R …" = results)
+//   pass                       project_equations(); dump (lines "P …" = inputs, "R …" = results;
+//                              "R row" = sparse row as pushed, "R dense" = the same row of the dense matrix A)
 //   rhs                        project_equations(); right-hand sides only
 //   touch                      update_points()
 //   refine                     refine_approx_coordinates()       (gama-local's linearisation iteration)
@@ -14,6 +15,7 @@
 //   bump <id> x|y|z <hex h>    move a coordinate by h metres, update_points()
 //   bumpo <k> <hex h>          move the orientation of stand-point cluster k by h radians
 // output: every line starts with P (model input), R (result) or E (echo/ok/throw)
+#include <cmath>
 #include <cstdio>
 #include <fstream>
 #include <iostream>
@@ -36,6 +38,7 @@ struct GamaVerifProbe {
   { return n.Asp ? n.Asp : n.input.mat(); }   // sparse solvers take the matrix over into AdjInputData
   static int cols(const LocalNetwork& n) { return n.pocet_neznamych_; }
   static int rows(const LocalNetwork& n) { return n.pocmer_; }
+  static const Mat& dense(const LocalNetwork& n) { return n.A; }   // the dense design matrix (gso, svd, cholesky)
 };
 
 static std::unique_ptr<LocalNetwork> IS;
@@ -104,6 +107,26 @@ static void dump_pass()
     const double* ne = const_cast<GNU_gama::SparseMatrix<double, int>*>(A)->end(i);
     for (; nb != ne; ++nb, ++ib) std::cout << " " << *ib << " " << vp::hex(*nb);
     std::cout << "\n";
+    // the same row of the dense matrix A (after prepareProjectEquations: for an uncorrelated cluster
+    // the row is the assembled row times w = m0 / stdev; w = nan marks a correlated cluster): the
+    // entries in the distinct columns of the sparse row, in order of first appearance
+    {
+      const Mat& D = GamaVerifProbe::dense(N);
+      double w = std::nan("");
+      if (o->ptr_cluster() && o->ptr_cluster()->covariance_matrix.bandWidth() == 0 && o->stdDev() > 0)
+        w = IS->apriori_m_0() / o->stdDev();
+      std::vector<int> seen;
+      for (const int* q = const_cast<GNU_gama::SparseMatrix<double, int>*>(A)->ibegin(i), *e = q + A->size(i); q != e; ++q) {
+        bool dup = false;
+        for (int c : seen) if (c == *q) dup = true;
+        if (!dup) seen.push_back(*q);
+      }
+      std::cout << "R dense " << vp::hex(w) << " " << seen.size();
+      for (int c : seen)
+        if (i <= D.rows() && c >= 1 && c <= D.cols()) std::cout << " " << c << " " << vp::hex(D(i, c));
+        else std::cout << " " << c << " out-of-range";
+      std::cout << "\n";
+    }
   }
   for (int j = 1; j <= cols; j++) {
     char t = N.unknown_type(j);
